@@ -243,6 +243,7 @@ def search_callsite(ctx, rep, cfgs=None):
                     via = [s_ for s_ in (s0, s1) if s_ == i.bb or s_ in dom[i.bb]]
                     if len(via) != 1: continue
                     seen_cond = True
+                    if _field_of(P, f, tb.ops[0]) == 'is_sorted': guarded = True      # (bit-field flags: the masks on the way select the member)
                     for (g2, v2, _) in P.leaves(f, _cond_root(f, tb.ops[0])):
                         if _field_of(P, g2, v2) == 'is_sorted': guarded = True
                     if guarded: break
